@@ -24,6 +24,7 @@ type gor struct {
 	what     string
 	top      *frame
 	fn       string
+	vc       vclock // happens-before clock (Config.RaceMaps)
 }
 
 type waiter struct {
@@ -62,6 +63,7 @@ func (m *Machine) spawn(fn Value, args []Value, pos token.Pos) {
 		g.fn = f.Fn.String()
 	}
 	m.gors = append(m.gors, g)
+	m.hbSpawn(g)
 	go func() {
 		<-g.wake
 		g.started = true
@@ -248,6 +250,7 @@ func (m *Machine) quiesce() (live int) {
 			live++
 		}
 	}
+	m.hbJoinAll()
 	return
 }
 
@@ -302,6 +305,7 @@ func (m *Machine) caseReady(c selCase) bool {
 
 func (m *Machine) execCase(c selCase) (Value, bool) {
 	ch := c.ch
+	m.hbBoth(ch)
 	if c.isSend {
 		if ch.closed {
 			panic(targetPanic{v: Iface{types.Typ[types.String], "send on closed channel"}, stack: m.stackString()})
@@ -357,6 +361,7 @@ func (m *Machine) selectOp(cases []selCase, blocking bool, what string) (int, Va
 		if c.ch == nil {
 			continue
 		}
+		m.hbRelease(c.ch)
 		w := &waiter{g: g, ch: c.ch, isSend: c.isSend, val: c.val, caseIdx: i, sel: st}
 		st.waiters = append(st.waiters, w)
 		if c.isSend {
@@ -373,6 +378,7 @@ func (m *Machine) selectOp(cases []selCase, blocking bool, what string) (int, Va
 		panic(targetPanic{v: Iface{types.Typ[types.String], "send on closed channel"}, stack: m.stackString()})
 	}
 	c := cases[st.firedCase]
+	m.hbAcquire(c.ch)
 	if c.isSend {
 		return st.firedCase, nil, false
 	}
@@ -405,6 +411,7 @@ func (m *Machine) chanClose(ch *Chan) {
 		panic(targetPanic{v: Iface{types.Typ[types.String], "close of closed channel"}, stack: m.stackString()})
 	}
 	ch.closed = true
+	m.hbRelease(ch)
 	for {
 		w := ch.firstWaiter(ch.recvq)
 		if w == nil {
